@@ -447,6 +447,10 @@ impl VectorizedHashTable {
                 }
                 return true;
             }
+            // A direct-address table is indexed by Int64 key value, not by
+            // hash: a probe key of any other type can equal none of its keys,
+            // and walking `heads` with hash buckets reads unrelated slots.
+            return true;
         }
         if let Some(build_bufs) = &self.i64_key_bufs {
             let probe_bufs: Option<Vec<&Int64Array>> = probe_key_arrays
@@ -510,6 +514,9 @@ impl VectorizedHashTable {
                 }
                 return matches;
             }
+            // Non-Int64 probe key against a direct-address (Int64) table:
+            // nothing can match, and the hash walk below does not apply.
+            return matches;
         }
 
         let hashes = vectorized_hash::hash_arrays(probe_key_arrays, num_rows);
@@ -645,6 +652,8 @@ impl VectorizedHashTable {
                 }
                 return matched;
             }
+            // Non-Int64 probe key against a direct-address (Int64) table.
+            return matched;
         }
 
         let hashes = vectorized_hash::hash_arrays(probe_key_arrays, num_rows);
